@@ -63,6 +63,9 @@ def dedrift(fr, drift_rate=None):
                          metadata=fr.metadata,
                          waterfall=fr.check_waterfall(),
                          seed=fr.rng)
+    # Derived frames keep the start time and source of their parent
+    dd_fr.t_start = fr.t_start
+    dd_fr.source_name = fr.source_name
 #     if dd_fr.waterfall is not None and 'source_name' in dd_fr.waterfall.header:
 #         dd_fr.waterfall.header['source_name'] += '_dedrifted'
     return dd_fr
